@@ -480,6 +480,15 @@ func containsAny(xs []string, sub string) bool {
 func genDictCase(cx *CheckCtx, i int, allowQualKeys bool) *Case {
 	r := cx.R.Fork()
 	pool := sanePool(r, 3)
+	if allowQualKeys && r.Bool() {
+		// paths competing for ONE name: the keys print as d.X, d1.X, d2.X (all registered before
+		// the Dict is reached, so the names are fixed) — the order must follow the PRINTED text
+		pool = &PathPool{}
+		base := pick(r, []string{"d", "status", "rand", "v2"})
+		for k := 0; k < 2+r.Intn(3); k++ {
+			pool.Paths = append(pool.Paths, fmt.Sprintf("h%d.com/x/%s", k, base))
+		}
+	}
 	c := &Case{ID: fmt.Sprintf("%s-%d-%d", cx.Prop, cx.Seed, i)}
 	c.Ops = append(c.Ops, Op{Kind: OpFile, F: 0, Str: []string{"new", "", "p"}})
 	if allowQualKeys {
@@ -504,7 +513,8 @@ func genDictCase(cx *CheckCtx, i int, allowQualKeys bool) *Case {
 		func() *Stmt {
 			if allowQualKeys {
 				k := r.Intn(len(pool.Paths))
-				return st(Qual{Path: pool.Paths[k], Name: qName(k)})
+				// names on both sides of the digit that numbering inserts ("d.B" vs "d1.A")
+				return st(Qual{Path: pool.Paths[k], Name: pick(r, []string{"Active", "Blocked", "Closed", "A", "Z", "a", qName(k)})})
 			}
 			return st(id("x"), Tok{Api: "Dot", HasArg: true, Arg: "Y"})
 		},
